@@ -596,6 +596,7 @@ def main(argv):
     for f in sorted(mine, key=lambda f: (f['idx'], f['cfg'])):
         by_class.setdefault(class_key(f['cls']), f)
     reports = []
+    unstable = []
     exit_code = 0
     known_matched = []
     os.makedirs(REPLAYS, exist_ok=True)
@@ -632,14 +633,17 @@ def main(argv):
         # gate: twice, fresh processes, same class and same digest
         g = [outcome_class(prop, plan, run_plan(f['cfg'], plan), f['cfg']) for _ in range(2)]
         if not all(class_key(x[1]) == class_key(f['cls']) and (x[2] == f['digest'] or f['crash'] or x[2] == 'crash') for x in g):
+            # not reported (nothing that does not replay is ever reported); if nothing else is found the check ends with 2
             log('check: violation %s of run %d (%s) did not reproduce identically from its plan: %s' % (f['cls'], f['idx'], f['cfg'], g))
-            return 2
+            unstable.append(f['cls'])
+            continue
         small, calls = minimise(plan, f['cfg'], prop, f['cls'])
         o = run_plan(f['cfg'], small, trace=True)
         p2, cls2, d2 = outcome_class(prop, small, o, f['cfg'])
         if class_key(cls2) != class_key(f['cls']):
             log('check: minimised plan does not reproduce: machinery fault')
-            return 2
+            unstable.append(f['cls'])
+            continue
         msg = o['result']['v']['msg'] if (o['result'] and o['result'].get('v')) else crash_detail(o['rc'], o['stderr'])
         small['expect'] = {'property': prop, 'class': cls2, 'digest': d2, 'config': f['cfg'], 'seed_index': f['idx'], 'batch_seed': seed,
                            'original_ops': len(plan['ops']), 'minimised_ops': len(small['ops']), 'shrink_runs': calls, 'message': msg}
@@ -651,8 +655,10 @@ def main(argv):
                                                                                       json.dumps(small['ops'])[:600]))
         reports.append(dict(cls=cls2, replay=path))
         exit_code = 1
-    if machinery and exit_code == 0:
+    if (machinery or unstable) and exit_code == 0:
         exit_code = 2  # nothing reproducible was found, but something abnormal happened: no verdict
+    if unstable:
+        extra['violations_that_did_not_replay'] = unstable
 
     # ---- evidence
     wall = time.time() - t_start
